@@ -12,7 +12,7 @@
      bank.ins[patch]                 patch < 128            (program number stored unmasked)
      switch(emulator) in OPN2::reset emulator in 0..8       (availability test is  1u << emulator)
      m_chips.resize(numChips)        1 <= numChips <= 100   (opn2_setNumChips stores before validating)
-     BankMap::reserve(n)             allocation of n slots
+     BankMap::reserve(n)             n <= 2*128*128 (number of bank ids that can exist)
    Hazards(S, ev) lists the accesses whose condition fails for call ev in state S, each with the label
    of its defect class ("crash@realTime_NoteOn channel=16", ...) and whether the model is SURE that
    the access is executed (otherwise it only may be).  With Repaired = TRUE the guards are the suggested
@@ -46,11 +46,15 @@ Assets == [
   sgarb   |-> Asset("song", FALSE, {}, {}, 0, 0, 0),
   strunc  |-> Asset("song", FALSE, {}, {}, 0, 0, 0),
   sempty  |-> Asset("song", FALSE, {}, {}, 0, 0, 0),
+  sbadtrk |-> Asset("song", FALSE, {}, {}, 0, 0, 0),      \* well-formed header and first track, unparsable second track
+  sbadvlq |-> Asset("song", FALSE, {}, {}, 0, 0, 0),      \* ... second track starts with an endless delta time
+  unk     |-> Asset("none", FALSE, {}, {}, 0, 0, 0),      \* (state after a load rejected in the middle: nothing is predicted)
   missing |-> Asset("path", FALSE, {}, {}, 0, 0, 0),
   dir     |-> Asset("path", FALSE, {}, {}, 0, 0, 0),
   none    |-> Asset("none", FALSE, {}, {}, 0, 0, 0) ]
 BankAssets == {"b1", "b2", "bgarb", "btrunc", "bempty"}
-SongAssets == {"s1", "s2", "sgarb", "strunc", "sempty"}
+SongAssets == {"s1", "s2", "sgarb", "strunc", "sempty", "sbadtrk", "sbadvlq"}
+RejectedMidway == {"sbadtrk", "sbadvlq"}
 
 Rep(n, x) == [i \in 1..n |-> x]
 RolandSum(b) == (128 - (SumSeq(b) % 128)) % 128
@@ -108,9 +112,11 @@ VolBad(S, c, vel, master) ==
 VolBadSure(S, c, vel, master) == VolBad(S, c, vel, master) /\ VolBad(S, c, (vel * 4) \div 5, master)
 VolLabel(S, c) ==
   LET m == S.mch[c] IN
-  "overflow@" \o (IF S.scale = 2 THEN "dmx-volume" ELSE "9x-volume") \o " " \o
-  (IF m.vol >= 128 THEN "cc7=" \o ToString(m.vol) ELSE IF m.expr >= 128 THEN "cc11=" \o ToString(m.expr) ELSE "cc7*cc11")
+  (IF S.scale = 2 THEN "dmx-volume" ELSE "9x-volume") \o " " \o
+  (IF m.vol >= 128 /\ m.expr >= 128 THEN "cc7=" \o ToString(m.vol) \o " cc11=" \o ToString(m.expr)
+   ELSE IF m.vol >= 128 THEN "cc7=" \o ToString(m.vol) ELSE IF m.expr >= 128 THEN "cc11=" \o ToString(m.expr) ELSE "cc7*cc11")
 
+CtrlTouching == {0, 1, 5, 6, 7, 10, 11, 32, 37, 38, 64, 65, 66, 67, 74, 98, 99, 100, 101, 120, 121, 123}
 RtSite == [rt_noteOn |-> "NoteOn", rt_noteOff |-> "NoteOff", rt_noteAfterTouch |-> "NoteAfterTouch",
            rt_channelAfterTouch |-> "ChannelAfterTouch", rt_controllerChange |-> "Controller", rt_patchChange |-> "PatchChange",
            rt_pitchBend |-> "PitchBend", rt_pitchBendML |-> "PitchBend", rt_bankChangeLSB |-> "BankChangeLSB",
@@ -125,7 +131,8 @@ DoesApplySetup(S, ev) ==
   \/ ev.e \in {"openBankData", "openBankFile"} /\ AssetOk(ev, "bank")
   \/ ev.e \in {"openData", "openFile"} /\ S.banks # {}
 
-Hz(c, w, sure) == IF c THEN << [w |-> w, sure |-> sure] >> ELSE << >>
+\* a hazard: kind (what the failed condition leads to), site + class of the defect, and whether the access surely executes
+Hz(c, kind, rest, sure) == IF c THEN << [w |-> kind \o "@" \o rest, k |-> kind, sure |-> sure] >> ELSE << >>
 
 \* state after the controller / program store of the call (the index is computed from the stored value)
 WithCC(S, c, n, v) ==
@@ -138,26 +145,27 @@ Hazards(S, ev) ==
   IF NullDev(S, ev) THEN << >>
   ELSE
     LET c == IF IsRt(ev) THEN ChanIdx(ev.ch) ELSE 0
-        chanBad == IsRt(ev) /\ c >= NMch
+        \* realTime_Controller only touches m_midiChannels[channel] for the controller numbers it implements
+        chanBad == IsRt(ev) /\ c >= NMch /\ (ev.e = "rt_controllerChange" => ev.n \in CtrlTouching)
     IN
-    Hz(chanBad, "crash@realTime_" \o (IF IsRt(ev) THEN RtSite[ev.e] ELSE "") \o " channel=" \o (IF IsRt(ev) THEN ToString(ev.ch) ELSE ""), TRUE)
-    \o Hz(ev.e = "switchEmulator" /\ EmuAvailable(ev.v) /\ ev.v \notin Supported, "abort@switchEmulator " \o (IF ev.e = "switchEmulator" THEN IntTok(ev.v) ELSE ""), TRUE)
-    \o Hz(DoesApplySetup(S, ev) /\ ChipsHuge(S.craw), "alloc@setNumChips " \o IntTok(S.craw), TRUE)
-    \o Hz(ev.e = "reserveBanks" /\ (ev.n = UMAX \/ ev.n > 1000000), "alloc@reserveBanks UINT_MAX", TRUE)
+    Hz(chanBad, "crash", "realTime_" \o (IF IsRt(ev) THEN RtSite[ev.e] ELSE "") \o " channel=" \o (IF IsRt(ev) THEN ToString(ev.ch) ELSE ""), TRUE)
+    \o Hz(ev.e = "switchEmulator" /\ EmuAvailable(ev.v) /\ ev.v \notin Supported, "abort", "switchEmulator " \o (IF ev.e = "switchEmulator" THEN IntTok(ev.v) ELSE ""), FALSE)   \* undefined shift: depends on the compiler
+    \o Hz(DoesApplySetup(S, ev) /\ ChipsHuge(S.craw), "alloc", "setNumChips " \o IntTok(S.craw), TRUE)
+    \o Hz(~Repaired /\ ev.e = "reserveBanks" /\ (ev.n = UMAX \/ ev.n > 1000000), "alloc", "reserveBanks UINT_MAX", TRUE)   \* repair: more than 2*128*128 ids cannot exist -> -1
     \o (IF chanBad THEN << >>
         ELSE CASE ev.e = "rt_noteOn" /\ ev.v > 0 ->
                     Hz(~DrumPath(S, c) /\ S.mch[c].patch >= 128 /\ S.banks # {},
-                       "overflow@realTime_NoteOn patch=" \o ToString(S.mch[c].patch), 0 \in S.banks)
-                    \o Hz(VolBad(S, c, ClampVel(ev.v), S.master) /\ S.chips >= 1 /\ S.banks # {}, VolLabel(S, c),
+                       "overflow", "realTime_NoteOn patch=" \o ToString(S.mch[c].patch), 0 \in S.banks)
+                    \o Hz(VolBad(S, c, ClampVel(ev.v), S.master) /\ S.chips >= 1 /\ S.banks # {}, "overflow", VolLabel(S, c),
                           SureSnd(S, c) /\ VolBadSure(S, c, ClampVel(ev.v), S.master))
                [] ev.e = "rt_controllerChange" /\ ev.n \in {7, 11, 74, 121} ->
                     LET S1 == WithCC(S, c, ev.n, ev.v)
                         vel == IF S.mch[c].an >= 0 THEN S.mch[c].av ELSE 127 IN
-                    Hz(VolBad(S1, c, vel, S.master) /\ S.chips >= 1 /\ S.banks # {}, VolLabel(S1, c),
+                    Hz(VolBad(S1, c, vel, S.master) /\ S.chips >= 1 /\ S.banks # {}, "overflow", VolLabel(S1, c),
                        S.mch[c].an >= 0 /\ VolBadSure(S1, c, vel, S.master))
                [] ev.e = "rt_systemExclusive" /\ Sx[ev.x].eff = "master" ->
                     LET bad == { k \in 0..15 : VolBad(S, k, IF S.mch[k].an >= 0 THEN S.mch[k].av ELSE 127, 100) } IN
-                    Hz(bad # {} /\ S.chips >= 1 /\ S.banks # {}, VolLabel(S, CHOOSE k \in bad \cup {0} : bad # {} => k \in bad),
+                    Hz(bad # {} /\ S.chips >= 1 /\ S.banks # {}, "overflow", VolLabel(S, CHOOSE k \in bad \cup {0} : bad # {} => k \in bad),
                        \E k \in bad : S.mch[k].an >= 0 /\ VolBadSure(S, k, S.mch[k].av, 100))
                [] OTHER -> << >>)
 
@@ -206,18 +214,19 @@ Ret(S, ev) ==
     [] ev.e = "getChannelAllocMode" -> S.alloc
     [] ev.e \in {"openBankData", "openBankFile"} -> IF AssetOk(ev, "bank") THEN 0 ELSE -1
     [] ev.e \in {"openData", "openFile"} -> IF S.banks # {} /\ AssetOk(ev, "song") THEN 0 ELSE -1
-    [] ev.e = "switchEmulator" -> IF EmuAvailable(ev.v) THEN 0 ELSE -1
+    [] ev.e = "switchEmulator" -> IF ev.v \in Supported THEN 0 ELSE IF EmuAvailable(ev.v) THEN NoPred ELSE -1     \* NoPred: undefined shift
     [] ev.e = "setRunAtPcmRate" -> 0
     [] ev.e = "setDeviceIdentifier" -> IF ev.v >= 0 /\ ev.v <= 15 THEN 0 ELSE -1
     [] ev.e = "getSongsCount" -> 0
-    [] ev.e = "trackCount" -> SongOf(S).tracks
-    [] ev.e = "metaTrackTitleCount" -> SongOf(S).titles
-    [] ev.e = "metaMarkerCount" -> SongOf(S).markers
+    [] ev.e = "trackCount" -> IF S.song = "unk" THEN NoPred ELSE SongOf(S).tracks
+    [] ev.e = "metaTrackTitleCount" -> IF S.song = "unk" THEN NoPred ELSE SongOf(S).titles
+    [] ev.e = "metaMarkerCount" -> IF S.song = "unk" THEN NoPred ELSE SongOf(S).markers
     [] ev.e = "generate" -> IF ev.n < 0 THEN 0 ELSE Even(ev.n)
     [] ev.e = "generateFormat" -> IF ev.n < 0 \/ ~FmtOk(ev.type, ev.cs) THEN 0 ELSE Even(ev.n)
     [] ev.e = "play" -> IF ev.n < 2 THEN 0 ELSE NoPred
     [] ev.e = "playFormat" -> IF ev.n < 2 \/ ~FmtOk(ev.type, ev.cs) THEN 0 ELSE NoPred
-    [] ev.e = "setTrackOptions" -> IF (ev.opt % 4) \in {1, 2} /\ ~(ev.i >= 0 /\ ev.i < SongOf(S).tracks) THEN -1
+    [] ev.e = "setTrackOptions" -> IF S.song = "unk" THEN NoPred
+                                   ELSE IF (ev.opt % 4) \in {1, 2} /\ ~(ev.i >= 0 /\ ev.i < SongOf(S).tracks) THEN -1
                                    ELSE IF ev.opt \notin 0..3 THEN -1 ELSE 0
     [] ev.e = "setChannelEnabled" -> IF ev.i >= 0 /\ ev.i <= 15 THEN 0 ELSE -1
     [] ev.e = "rt_noteOn" -> IF ChanIdx(ev.ch) >= NMch THEN NoPred ELSE IF ev.v = 0 THEN 0 ELSE IF S.chips < 1 \/ S.banks = {} THEN 0
@@ -243,7 +252,7 @@ DocFail(S, ev) ==
     [] ev.e = "getBank" /\ (nd \/ ~BankIdOk(ev) \/ (ev.flags % 2 = 0 /\ BankKey(ev) \notin S.banks)) -> "neg"
     [] ev.e \in {"openBankData", "openBankFile"} /\ (nd \/ ~AssetOk(ev, "bank")) -> "neg"
     [] ev.e \in {"openData", "openFile"} /\ (nd \/ ~AssetOk(ev, "song")) -> "neg"
-    [] ev.e = "setTrackOptions" /\ (nd \/ (ev.opt \in {1, 2} /\ ~(ev.i >= 0 /\ ev.i < SongOf(S).tracks))) -> "neg"
+    [] ev.e = "setTrackOptions" /\ (nd \/ (S.song # "unk" /\ ev.opt \in {1, 2} /\ ~(ev.i >= 0 /\ ev.i < SongOf(S).tracks))) -> "neg"
     [] ev.e = "setChannelEnabled" /\ (nd \/ ~(ev.i >= 0 /\ ev.i <= 15)) -> "neg"   \* "from 0 to 15"
     [] ev.e \in {"setRunAtPcmRate", "describeChannels", "getVolumeRangeModel"} /\ nd -> "neg"
     [] ev.e = "rt_systemExclusive" /\ ~nd /\ ~SxFramed(ev.bytes) -> "zero"         \* "must begin with 0xF0 and end with 0xF7"
@@ -296,7 +305,7 @@ Step(S, ev) ==
          IF ChipsValid(ev.n) THEN PartialReset([S EXCEPT !.craw = ev.n, !.chips = ev.n])
          ELSE IF Repaired THEN S ELSE [S EXCEPT !.craw = ev.n]                      \* stored before validating
     [] ev.e = "setChipType" -> ApplySetup(S)
-    [] ev.e = "switchEmulator" -> IF EmuAvailable(ev.v) THEN PartialReset([S EXCEPT !.emu = ev.v]) ELSE S
+    [] ev.e = "switchEmulator" -> IF (IF Has(ev, "r") THEN ev.r = 0 ELSE EmuAvailable(ev.v)) THEN PartialReset([S EXCEPT !.emu = ev.v]) ELSE S
     [] ev.e = "setRunAtPcmRate" -> PartialReset(S)
     [] ev.e = "setLogarithmicVolumes" -> [S EXCEPT !.logv = ev.v, !.scale = IF ev.v # 0 THEN 1 ELSE ScaleOf(S.vset, @)]
     [] ev.e = "setVolumeRangeModel" -> [S EXCEPT !.vset = ev.v, !.scale = IF ev.v = 0 THEN 0 ELSE ScaleOf(ev.v, @)]
@@ -308,7 +317,8 @@ Step(S, ev) ==
     [] ev.e \in {"openData", "openFile"} ->
          IF S.banks = {} THEN S
          ELSE LET S1 == ApplySetup(ResetMIDI(S)) IN
-              IF R(ev) = 0 /\ Assets[ev.a].t = "song" THEN [S1 EXCEPT !.song = ev.a] ELSE S1
+              IF R(ev) = 0 /\ Assets[ev.a].t = "song" THEN [S1 EXCEPT !.song = ev.a]
+              ELSE IF ev.a \in RejectedMidway THEN [S1 EXCEPT !.song = "unk"] ELSE S1
     [] ev.e = "reset" -> ResetMIDI(PartialReset(S))
     [] ev.e \in {"rt_resetState"} -> ResetState(S)
     [] ev.e \in {"panic", "positionRewind"} -> AllOff(S)
@@ -459,6 +469,13 @@ Sweep(S, f) ==
   LET P == Par(S, f)  nv == Nv(S, f) IN
   { Mk(f, [nv EXCEPT ![k] = x]) : <<k, x>> \in UNION { { <<kk, xx>> : xx \in P[kk] } : kk \in DOMAIN P } }
   \cup (IF f \in {"reinit"} THEN {} ELSE { Mk(f, nv) @@ [nd |-> 1] })
-\* a call with every parameter drawn at random from its classes (simulation mode only)
-RandCall(S, f) == LET P == Par(S, f) IN Mk(f, [k \in DOMAIN P |-> RandomElement(P[k])])
+\* a call with every parameter drawn from its classes by the seed sd (0 <= sd < 10^6); pure, so that one random draw
+\* made by the caller fixes the whole call (TLC re-evaluates RandomElement at every reference)
+Mix(sd, j) == (sd * (2 * j + 7) + 7919 * j) % 1000003
+PickFrom(seq, sd) == seq[1 + (sd % Len(seq))]
+RandCall(S, f, sd) ==
+  LET P == Par(S, f)
+      ks == SetToSeq(DOMAIN P)
+      pos(k) == CHOOSE i \in 1..Len(ks) : ks[i] = k
+  IN Mk(f, [k \in DOMAIN P |-> PickFrom(SetToSeq(P[k]), Mix(sd, pos(k)))])
 =============================================================================
